@@ -667,7 +667,7 @@ fn chk_meta_shape(asy: bool, c: u8, json: &[u8]) -> Result<(), String> {
     // an otherwise valid archive whose metadata is valid JSON but not an object
     let mut st = Stats::default();
     let mut r = Rng::new(7);
-    let mut f = gen_foreign(&mut r, &ForeignOpts { n: 3, depth: 0, icomp: c, permute: false, unordered: false, empty_meta: true, merge_runs: true, unknown_counts: false }, &mut st);
+    let mut f = gen_foreign(&mut r, &ForeignOpts { n: 3, depth: 0, icomp: c, permute: false, unordered: false, empty_meta: true, merge_runs: true, unknown_counts: false, multi_frame: false }, &mut st);
     let meta = spec::codec_compress(c, json);
     let mut h = f.header.clone();
     h.meta_off = f.bytes.len() as u64;
@@ -704,7 +704,7 @@ fn chk_unknown(asy: bool, with_meta: bool, ntiles: u64) -> Result<(), String> {
     // opening a header that declares Unknown
     let mut s2 = Stats::default();
     let mut r = Rng::new(ntiles + 11);
-    let f = gen_foreign(&mut r, &ForeignOpts { n: ntiles as usize, depth: 0, icomp: 1, permute: false, unordered: false, empty_meta: !with_meta, merge_runs: true, unknown_counts: false }, &mut s2);
+    let f = gen_foreign(&mut r, &ForeignOpts { n: ntiles as usize, depth: 0, icomp: 1, permute: false, unordered: false, empty_meta: !with_meta, merge_runs: true, unknown_counts: false, multi_frame: false }, &mut s2);
     let mut h = f.header.clone();
     h.icomp = 0;
     let mut b = f.bytes.clone();
@@ -805,7 +805,7 @@ pub fn gen_c19(rng: &mut Rng, quick: bool, st: &mut Stats) -> Vec<String> {
         let comp = 1 + (k % 4) as u8;
         let mut s2 = Stats::default();
         let mut r = Rng::new(7);
-        let mut f = gen_foreign(&mut r, &ForeignOpts { n: 3, depth: 0, icomp: comp, permute: false, unordered: false, empty_meta: true, merge_runs: true, unknown_counts: false }, &mut s2);
+        let mut f = gen_foreign(&mut r, &ForeignOpts { n: 3, depth: 0, icomp: comp, permute: false, unordered: false, empty_meta: true, merge_runs: true, unknown_counts: false, multi_frame: false }, &mut s2);
         let meta = spec::codec_compress(comp, s);
         let mut h = f.header.clone();
         h.meta_off = f.bytes.len() as u64;
@@ -829,7 +829,7 @@ pub fn gen_c19(rng: &mut Rng, quick: bool, st: &mut Stats) -> Vec<String> {
         for with_meta in [false, true] {
             let mut s2 = Stats::default();
             let mut r = Rng::new(3);
-            let f = gen_foreign(&mut r, &ForeignOpts { n: 4, depth: 0, icomp: 1, permute: false, unordered: false, empty_meta: !with_meta, merge_runs: true, unknown_counts: false }, &mut s2);
+            let f = gen_foreign(&mut r, &ForeignOpts { n: 4, depth: 0, icomp: 1, permute: false, unordered: false, empty_meta: !with_meta, merge_runs: true, unknown_counts: false, multi_frame: false }, &mut s2);
             let mut h = f.header.clone();
             h.icomp = 0;
             let mut b = f.bytes.clone();
